@@ -32,7 +32,9 @@ LEVEL_TEXT = (
     "3/4 blocks, structured/random larger CFGs, CFGs of C functions compiled with and without optimisation) through that "
     "validator; refusals must be exceptions. Second sliver (proof): the data segments emitted for initialised globals give "
     "every global a disjoint slot above the stack region and the initial memory read at a global's address is its initial "
-    "value (zero beyond it). NOT covered: translation of the straight-line code inside blocks (expressions, stack code, phis, "
+    "value (zero beyond it); on every run the REAL data section of generated IR modules and C sources (int/short/char "
+    "arrays, structs, strings, doubles; leading/trailing/middle zero bytes, all-zero, 1-byte, odd sizes) is rebuilt into "
+    "linear memory and compared with the IR initial bytes, with the model, and by executing loads on ppci's wasm runtime. NOT covered: translation of the straight-line code inside blocks (expressions, stack code, phis, "
     "calls), wasm operand-stack validation, execution in a reference engine (none available: ppci's own wasm runtime is used "
     "only to replay failing inputs and to sanity-check the skeleton semantics). The validator is sound, not complete."
 )
@@ -46,7 +48,8 @@ TECHNIQUE = ("Lean 4 proof of soundness of a structuring validator (translation 
              "relooper/do_shape results + differential replay of rejected outputs on ppci's wasm runtime vs ir_to_python")
 RULE = ("programs = (CFG, emitted skeleton) pairs validated by the Lean checker; distinct = distinct canonical CFG (entry-first BFS "
         "numbering) or distinct C function body; non-trivial = CFG with at least one conditional jump or loop. Exhaustive: all "
-        "canonical CFGs with <=3 blocks (quick) / <=4 blocks (thorough), out-degree <=2, incl. cjmp with equal targets")
+        "canonical CFGs with <=3 blocks (quick) / <=4 blocks (thorough), out-degree <=2, incl. cjmp with equal targets. "
+        "Data segments: fixed patterns (DATA_PATTERNS) + zero-biased random bytes; non-trivial = initial value containing a zero byte")
 TRUSTED = [
     "harness extraction of (CFG, shape, control skeleton) from the real objects (ir.Function, relooper shapes, wasm Instruction list)",
     "Model.Shape.exec as the meaning of block/loop/if/br (wasm spec label semantics, written by hand; cross-checked against ppci's own wasm runtime on every run)",
@@ -1135,89 +1138,299 @@ def c_cases(ctx, n):
     return out
 
 
-def dataseg_check(ctx, n):
-    """second sliver: layout of initialised globals = Model.DataSeg"""
+DATA_PATTERNS = [
+    # (amount, initial bytes): leading / trailing / middle zeros, all-zero, 1-byte, odd sizes, short initialisers
+    (4, bytes([0, 1, 0, 0])),            # int 256: leading zero byte
+    (4, bytes([0, 0, 1, 0])),            # int 65536
+    (4, bytes([0, 252, 255, 255])),      # int -1024
+    (4, bytes([7, 0, 0, 0])),            # trailing zeros only
+    (4, bytes([0, 0, 0, 0])),            # all zero, explicitly initialised
+    (1, bytes([0])), (1, bytes([5])),
+    (3, bytes([0, 0, 9])), (5, bytes([1, 0, 0, 0, 2])), (7, bytes([0, 3, 0, 4, 0, 5, 0])),
+    (8, bytes([0, 0, 0, 0, 0, 0, 240, 63])),   # double 1.0
+    (24, bytes([0, 0, 0, 0, 0, 0, 0, 0, 11, 0, 0, 0, 22, 0, 0, 0, 0, 0, 0, 0, 33, 0, 0, 0])),
+    (8, bytes([0, 0, 0, 0, 5, 0, 0, 0])),      # struct {char c; int v;} = {0, 5}
+    (13, b"\x00hello\x00\x00wor\x00d"),
+    (6, bytes([0, 1])),                  # initial value shorter than the variable
+    (4, b""),                            # uninitialised
+]
+
+
+def gen_data(rng):
+    if rng.random() < 0.5:
+        return rng.choice(DATA_PATTERNS)
+    amount = rng.choice([1, 2, 3, 4, 5, 8, 13, 16])
+    k = rng.random()
+    if k < 0.15:
+        return amount, b""
+    data = bytes(0 if rng.random() < 0.45 else rng.randrange(1, 256) for _ in range(amount))
+    return amount, data
+
+
+def module_globals(m):
+    """[(name, amount, initial bytes)] of an IR module; None when an initial value is not plain bytes"""
+    out = []
+    for v in m.variables:
+        parts = v.value or ()
+        if not all(isinstance(p, (bytes, bytearray)) for p in parts):
+            return None
+        out.append((v.name, v.amount, b"".join(bytes(p) for p in parts)))
+    return out
+
+
+def wasm_compile(m):
+    from ppci.wasm import ppci2wasm
+    comp = ppci2wasm.IrToWasmCompiler()
+    comp.prepare_compilation()
+    with contextlib.redirect_stdout(io.StringIO()):
+        comp.compile(m)
+        wm = comp.create_wasm_module()
+    return comp, wm
+
+
+def data_property(ctx, origin, globs, comp, wm, case, batch):
+    """THE PROPERTY ON THE REAL OUTPUT: linear memory rebuilt from the emitted data segments holds, at the
+    address the translated code uses for each global, exactly the IR's initial bytes (zero where there are none);
+    slots are disjoint and above the stack region.  Also queues the comparison with Model.DataSeg."""
+    from ppci.wasm import components
+    segs = []
+    for d in wm.definitions:
+        if isinstance(d, components.Data):
+            if d.mode is None or d.mode[1][0].opcode != "i32.const":
+                ctx.fail("dataseg:unexpected-segment-form", f"data segment {d.id} is not active with an i32.const offset", case)
+                continue
+            segs.append((d.mode[1][0].args[0], bytes(d.data)))
+    addrs = [comp.global_labels.get(name) for name, _a, _d in globs]
+    ctx.count("eval_dataseg")
+    ctx.count("programs")
+    end = max([comp.global_memory] + [off + len(dt) for off, dt in segs]) + 8
+    mem = bytearray(end + 8)
+    for off, dt in segs:          # wasm instantiation: active segments are copied in order
+        mem[off:off + len(dt)] = dt
+    for (name, amount, data), addr in zip(globs, addrs):
+        if addr is None:
+            ctx.fail("dataseg:no-address", f"global {name} has no address", case)
+            continue
+        if len(data) > amount:
+            ctx.count("dataseg_initial_value_longer_than_variable")
+            continue
+        want = data + bytes(amount - len(data))
+        got = bytes(mem[addr:addr + amount])
+        if data and (data[0] == 0 or data[-1] == 0 or 0 in data):
+            ctx.nontrivial(("dataseg", amount, data.hex()))
+        if got != want:
+            ctx.fail("dataseg:initial-bytes-differ",
+                     f"{origin}: global {name} ({amount} bytes at {addr}): memory rebuilt from the emitted data segments holds "
+                     f"{got.hex()} but the IR initial value is {want.hex()}",
+                     dict(case, **{"global": name, "segments": [(o, d.hex()) for o, d in segs]}))
+        if addr < comp.STACKSIZE:
+            ctx.fail("dataseg:in-stack-region", f"global {name} at {addr} < STACKSIZE {comp.STACKSIZE}", case)
+    order = sorted(zip(addrs, globs), key=lambda t: (t[0] is None, t[0]))
+    for (a1, g1), (a2, g2) in zip(order, order[1:]):
+        if a1 is not None and a2 is not None and a1 + g1[1] > a2:
+            ctx.fail("dataseg:overlap", f"globals {g1[0]} [{a1},{a1 + g1[1]}) and {g2[0]} at {a2} overlap", case)
+    # model (only meaningful when every initial value fits: WF)
+    if all(len(d) <= a for _n, a, d in globs) and all(a is not None for a in addrs):
+        reqs, impls, cases = batch
+        reqs.append(f"lay {comp.STACKSIZE} " + " ".join(f"{a}:{len(d)}" for _n, a, d in globs))
+        # global_memory also advances over literal constants placed after the globals: compare the globals' end
+        impls.append("ok " + " ".join(map(str, addrs)) + f" end={comp.STACKSIZE + sum(a for _n, a, _d in globs)}")
+        cases.append(case)
+        lo = comp.STACKSIZE - 2
+        hi = comp.STACKSIZE + sum(a for _n, a, _d in globs) + 2
+        reqs.append(f"img {comp.STACKSIZE} " + " ".join(f"{a}:{d.hex() or '-'}" for _n, a, d in globs) + f" @ {lo} {hi - lo}")
+        impls.append("ok " + bytes(mem[lo:hi]).hex())
+        cases.append(case)
+    return addrs
+
+
+def ir_data_module(rng):
+    """IR module with initialised globals and, per global i, a function rd<i>(j) = zero-extended byte j of it"""
     from ppci import ir
-    from ppci.wasm import ppci2wasm, components
-    reqs, impls, cases = [], [], []
-    for k in range(n):
-        m = ir.Module("m")
-        vs = []
-        for i in range(ctx.rng.randint(1, 6)):
-            amount = ctx.rng.choice([1, 2, 3, 4, 8, 13, 16])
-            if ctx.rng.random() < 0.3:
-                data = b""
-            else:
-                data = bytes(ctx.rng.randrange(256) for _ in range(amount))
-            parts = ()
-            if data:
-                cut = ctx.rng.randint(0, len(data))
-                parts = tuple(p for p in (data[:cut], data[cut:]) if p)
-            v = ir.Variable(f"g{i}", ir.Binding.GLOBAL, amount, ctx.rng.choice([1, 4, 8]), value=parts or None)
-            m.add_variable(v)
-            vs.append((amount, data))
-        # a function reading every global so that loads refer to the addresses
-        f = ir.Function("f", ir.Binding.GLOBAL, ir.i32)
+    m = ir.Module("m")
+    vs = []
+    for i in range(rng.randint(1, 6)):
+        amount, data = gen_data(rng)
+        parts = ()
+        if data:
+            cut = rng.randint(0, len(data))
+            parts = tuple(p for p in (data[:cut], data[cut:]) if p)
+        v = ir.Variable(f"g{i}", ir.Binding.GLOBAL, amount, rng.choice([1, 4, 8]), value=parts or None)
+        m.add_variable(v)
+        vs.append((amount, data))
+        f = ir.Function(f"rd{i}", ir.Binding.GLOBAL, ir.i32)
         m.add_function(f)
+        j = ir.Parameter("j", ir.i32)
+        f.add_parameter(j)
         b = ir.Block("entry")
         f.add_block(b)
         f.entry = b
-        acc = ir.Const(0, "z", ir.i32)
-        b.add_instruction(acc)
-        for v in m.variables:
-            ld = ir.Load(v, "l", ir.u8)
-            b.add_instruction(ld)
-            cv = ir.Cast(ld, "c", ir.i32)
-            b.add_instruction(cv)
-            acc2 = ir.Binop(acc, "+", cv, "s", ir.i32)
-            b.add_instruction(acc2)
-            acc = acc2
-        b.add_instruction(ir.Return(acc))
-        comp = ppci2wasm.IrToWasmCompiler()
-        comp.prepare_compilation()
-        with contextlib.redirect_stdout(io.StringIO()):
-            comp.compile(m)
-            wm = comp.create_wasm_module()
-        addrs = [comp.global_labels[v.name] for v in m.variables]
-        segs = []
-        for d in wm.definitions:
-            if isinstance(d, components.Data):
-                segs.append((d.mode[1][0].args[0], bytes(d.data)))
-        consts = [ins.args[0] for d in wm.definitions if isinstance(d, components.Func) for ins in d.instructions
-                  if ins.opcode == "i32.const"]
-        ctx.count("eval_dataseg")
-        case = {"vars": [(a, d.hex()) for a, d in vs]}
-        # model layout
-        reqs.append(f"lay {comp.STACKSIZE} " + " ".join(f"{a}:{len(d)}" for a, d in vs))
-        impls.append("ok " + " ".join(map(str, addrs)) + f" end={comp.global_memory}")
-        cases.append(case)
-        # model image over the whole globals area vs the real segments applied in order
-        lo, hi = comp.STACKSIZE - 2, comp.global_memory + 2
-        mem = bytearray(hi + 16)
-        for off, data in segs:
-            mem[off:off + len(data)] = data
-        reqs.append(f"img {comp.STACKSIZE} " + " ".join(f"{a}:{d.hex() or '-'}" for a, d in vs) + f" @ {lo} {hi - lo}")
-        impls.append("ok " + bytes(mem[lo:hi]).hex())
-        cases.append(case)
-        # property on the real output: the initial memory at each global's address is its initial value, the
-        # loads use those addresses, slots are disjoint and above the stack
-        for (amount, data), addr in zip(vs, addrs):
-            want = data + bytes(amount - len(data))
-            if bytes(mem[addr:addr + amount]) != want:
-                ctx.fail("create_wasm_module:initial-memory-differs", f"global at {addr}: initial memory {bytes(mem[addr:addr+amount]).hex()} != {want.hex()}", case)
-            if addr not in consts:
-                ctx.fail("do_tree:LABEL-address-differs", f"no load uses address {addr} of a global", case)
-            if addr < comp.STACKSIZE:
-                ctx.fail("compile:global-in-stack-region", f"global at {addr} < STACKSIZE", case)
-        for (a1, (am1, _)), (a2, _v) in zip(zip(addrs, vs), list(zip(addrs, vs))[1:]):
-            if a1 + am1 > a2:
-                ctx.fail("compile:globals-overlap", f"slots {a1}+{am1} and {a2} overlap", case)
+        c = ir.Cast(j, "c", ir.ptr); b.add_instruction(c)
+        a = ir.Binop(v, "+", c, "a", ir.ptr); b.add_instruction(a)
+        ld = ir.Load(a, "l", ir.u8); b.add_instruction(ld)
+        r = ir.Cast(ld, "r", ir.i32); b.add_instruction(r)
+        b.add_instruction(ir.Return(r))
+    return m, vs
+
+
+C_DATA_CORPUS = [
+    ("""int plain = 7; int k256 = 256; int big = 65536; int neg = -1024; int zero = 0; int un;
+int tab[6] = {0, 0, 11, 22, 0, 33}; short sh[3] = {0, 513, 2}; char one = 0; char two = 9;
+struct P { char c; int v; } p = {0, 5}; char msg[8] = "hi"; char lead[5] = {0, 0, 'x', 0, 'y'}; double d = 1.0; int tail = 99;
+int get_plain(void) { return plain; } int get_k256(void) { return k256; } int get_big(void) { return big; }
+int get_neg(void) { return neg; } int get_zero(void) { return zero; } int get_un(void) { return un; }
+int get_tab(int i) { return tab[i]; } int get_sh(int i) { return sh[i]; } int get_one(void) { return one; }
+int get_two(void) { return two; } int get_pc(void) { return p.c; } int get_pv(void) { return p.v; }
+int get_msg(int i) { return msg[i]; } int get_lead(int i) { return lead[i]; } int get_tail(void) { return tail; }
+""", {"get_plain": None, "get_k256": None, "get_big": None, "get_neg": None, "get_zero": None, "get_un": None,
+      "get_tab": 6, "get_sh": 3, "get_one": None, "get_two": None, "get_pc": None, "get_pv": None, "get_msg": 8,
+      "get_lead": 5, "get_tail": None}),
+]
+
+
+def gen_c_data(rng):
+    """C source with int / short / char array / struct / string / double globals and getters"""
+    ints = [0, 1, 7, 255, 256, 511, 65536, 16777216, -1, -256, -1024, -65536, 0x00FF00, 0x7F000000]
+    decls, getters, calls = [], [], {}
+    for i in range(rng.randint(2, 7)):
+        k = rng.random()
+        if k < 0.3:
+            decls.append(f"int v{i} = {rng.choice(ints)};")
+            getters.append(f"int get{i}(void) {{ return v{i}; }}")
+            calls[f"get{i}"] = None
+        elif k < 0.5:
+            n = rng.randint(1, 6)
+            vals = [rng.choice([0, 0, 0, 11, 256, -1, 65536]) for _ in range(n)]
+            decls.append(f"int v{i}[{n}] = {{{', '.join(map(str, vals))}}};")
+            getters.append(f"int get{i}(int j) {{ return v{i}[j]; }}")
+            calls[f"get{i}"] = n
+        elif k < 0.65:
+            n = rng.randint(1, 5)
+            vals = [rng.choice([0, 0, 513, 2, 256, -1]) for _ in range(n)]
+            decls.append(f"short v{i}[{n}] = {{{', '.join(map(str, vals))}}};")
+            getters.append(f"int get{i}(int j) {{ return v{i}[j]; }}")
+            calls[f"get{i}"] = n
+        elif k < 0.8:
+            n = rng.randint(1, 7)
+            vals = [rng.choice([0, 0, 1, 65, 127]) for _ in range(n)]
+            decls.append(f"char v{i}[{n}] = {{{', '.join(map(str, vals))}}};")
+            getters.append(f"int get{i}(int j) {{ return v{i}[j]; }}")
+            calls[f"get{i}"] = n
+        elif k < 0.92:
+            c, v = rng.choice([0, 0, 3]), rng.choice(ints)
+            decls.append(f"struct S{i} {{ char c; int v; }} v{i} = {{{c}, {v}}};")
+            getters.append(f"int get{i}c(void) {{ return v{i}.c; }} int get{i}v(void) {{ return v{i}.v; }}")
+            calls[f"get{i}c"] = None
+            calls[f"get{i}v"] = None
+        else:
+            decls.append(f"double v{i} = {rng.choice(['1.0', '0.0', '2.5', '-0.5'])};")
+    return "\n".join(decls + getters) + "\n", calls
+
+
+def dataseg_check(ctx, n):
+    """second sliver: the emitted data segments = the IR's initial state of the globals (property on the real
+    output, Model.DataSeg correspondence, and execution of loads on ppci's wasm runtime vs ir_to_python)"""
+    from ppci import api
+    from ppci.wasm import instantiate
+    from ppci.lang.python import ir_to_python
+    batch = ([], [], [])
+
+    def both_sides(m, wm):
+        inst = instantiate(wm, target="python")
+        f = io.StringIO()
+        ir_to_python([m], f)
+        ns = {}
+        exec(f.getvalue(), ns)
+        return inst, ns
+
+    def call(fn, *a):
+        try:
+            with time_limit(5):
+                return fn(*a)
+        except Exception as e:  # noqa
+            return "exc:" + type(e).__name__
+
+    # (a) generated IR modules: every byte of every global is loaded by rd<i>(j)
+    for k in range(n):
+        m, vs = ir_data_module(ctx.rng)
+        globs = module_globals(m)
+        case = {"origin": "ir-data", "vars": [(a, d.hex()) for a, d in vs]}
+        try:
+            comp, wm = wasm_compile(m)
+        except Exception as e:  # noqa
+            ctx.count("dataseg_refusal_" + type(e).__name__)
+            continue
+        data_property(ctx, "ir-data", globs, comp, wm, case, batch)
+        if k < (60 if ctx.thorough else 12):
+            try:
+                inst, ns = both_sides(m, wm)
+            except Exception as e:  # noqa
+                ctx.count("dataseg_exec_setup_error_" + type(e).__name__)
+                continue
+            for i, (amount, data) in enumerate(vs):
+                for j in range(amount):
+                    want = data[j] if j < len(data) else 0
+                    r_w = call(getattr(inst.exports, f"rd{i}"), j)
+                    r_ir = call(ns[f"rd{i}"], j)
+                    ctx.count("eval_dataseg_load")
+                    if len(data) not in (0, amount):
+                        # ir_to_python packs a short initial value without padding it to `amount`: outside the
+                        # reference's domain (the wasm side is still compared with zero fill)
+                        ctx.count("dataseg_reference_short_initialiser_skipped")
+                    elif r_ir != want:
+                        ctx.disagree("ir_to_python load of a global's initial byte vs the IR initial value",
+                                     dict(case, **{"global": i, "byte": j}), r_ir, want)
+                    if r_w != want:
+                        ctx.fail("dataseg:load-differs",
+                                 f"rd{i}({j}) (u8 load of byte {j} of a {amount}-byte global initialised with {data.hex() or 'nothing'}) "
+                                 f"returns {r_w} on ppci's wasm runtime, the IR initial byte is {want} (ir_to_python: {r_ir})",
+                                 dict(case, **{"global": i, "byte": j}))
+                        break
+    # (b) C sources with int / array / struct / string / double initialisers, -O0 and -O2
+    srcs = list(C_DATA_CORPUS) + [gen_c_data(ctx.rng) for _ in range(40 if ctx.thorough else 6)]
+    for src, calls in srcs:
+        for opt in (0, 2):
+            try:
+                with contextlib.redirect_stdout(io.StringIO()):
+                    m = api.c_to_ir(io.StringIO(src), "arm")
+                    if opt:
+                        api.optimize(m, level=opt)
+                globs = module_globals(m)
+                if globs is None:
+                    ctx.count("dataseg_c_relocated_initialiser")
+                    continue
+                comp, wm = wasm_compile(m)
+            except Exception as e:  # noqa
+                ctx.count("dataseg_c_refusal_" + type(e).__name__)
+                continue
+            case = {"origin": f"c-data:O{opt}", "source": src}
+            data_property(ctx, f"c-data:O{opt}", globs, comp, wm, case, batch)
+            try:
+                inst, ns = both_sides(m, wm)
+            except Exception as e:  # noqa
+                ctx.count("dataseg_exec_setup_error_" + type(e).__name__)
+                continue
+            for name, cnt in calls.items():
+                for args in ([()] if cnt is None else [(j,) for j in range(cnt)]):
+                    r_ir = call(ns[name], *args)
+                    r_w = call(getattr(inst.exports, name), *args)
+                    ctx.count("eval_dataseg_load")
+                    if isinstance(r_ir, str):
+                        ctx.count("dataseg_reference_" + r_ir)
+                        continue
+                    if r_w != r_ir:
+                        ctx.fail("dataseg:load-differs",
+                                 f"{name}{args} returns {r_w} on ppci's wasm runtime but {r_ir} under ir_to_python (read of an "
+                                 f"initialised global before any store)", dict(case, **{"call": name, "args": list(args)}))
+                        break
+    reqs, impls, cases = batch
+
     def finish(out):
         for rq, i, o, cs in zip(reqs, impls, out, cases):
             if i != o:
                 ctx.disagree("DataSeg model", {"request": rq, **cs}, i, o)
         if reqs:
-            ctx.sample({"dataseg_request": reqs[0], "impl": impls[0], "model": out[0]})
+            ctx.sample({"dataseg_request": reqs[1], "impl": impls[1], "model": out[1]})
 
     return reqs, finish
 
